@@ -48,7 +48,27 @@ class LazyRef:
                 self.log.append((path, 'read', v))
                 yield (k, v) if with_key else v
             return
-        if op in ('map', 'frag', 'parmap', 'nonemap'):
+        if op == 'parmap' or (op == 'batch_map' and node.get('workers')):
+            # lazy_parallel_map pulls its input in the consumer thread, at most buffer_size + 1 ahead of the results
+            (c, cp), = self.kids(node, path)
+            if op == 'parmap':
+                f = self.fn_of(node)
+                apply = (lambda x: (x[0], self.call(path, f, x[1]))) if with_key else (lambda x: self.call(path, f, x))
+            else:
+                g = functools.partial(progs.f_wrap, node['fn'])
+                if with_key:
+                    apply = lambda b: (b[0], [self.call(path, g, x) for x in b[1]])  # noqa
+                else:
+                    apply = lambda b: [self.call(path, g, x) for x in b]  # noqa
+            ahead = node['buffer'] + 1
+            buf = []
+            for x in self.iter(c, cp, with_key):
+                buf.append(apply(x))
+                if len(buf) > ahead:
+                    yield buf.pop(0)
+            yield from buf
+            return
+        if op in ('map', 'frag', 'nonemap'):
             f = self.fn_of(node)
             (c, cp), = self.kids(node, path)
             for x in self.iter(c, cp, with_key):
@@ -60,8 +80,11 @@ class LazyRef:
         if op == 'batch_map':
             (c, cp), = self.kids(node, path)
             f = functools.partial(progs.f_wrap, node['fn'])
-            for b in self.iter(c, cp):
-                yield [self.call(path, f, x) for x in b]
+            for b in self.iter(c, cp, with_key):
+                if with_key:
+                    yield b[0], [self.call(path, f, x) for x in b[1]]
+                else:
+                    yield [self.call(path, f, x) for x in b]
             return
         if op == 'filter' and node['lazy']:
             f = self.fn_of(node)
